@@ -117,14 +117,42 @@ Proof.
   - apply steps_same; reflexivity.
 Qed.
 
-Lemma steps_bind_dup st n x m :
-  steps st (if fst (bind opts st n x) then errorf (snd (bind opts st n x)) RParDuplicate m
-            else snd (bind opts st n x)) [].
+(* the current block is a function block whose local names are `seen` *)
+Definition B (st : rs) (seen : list string) : Prop :=
+  exists b k, env st = Some b /\ nth_error (blocks st) b = Some k /\ k_memo k = [] /\
+              forall x, mem x (k_names k) = smem x seen.
+
+Lemma B_errorf st seen r n : B st seen -> B (errorf st r n) seen.
+Proof. intros [b [k H]]. exists b, k. exact H. Qed.
+
+Lemma nth_error_upd_blk_same i f l k :
+  nth_error l i = Some k -> nth_error (upd_blk i f l) i = Some (f k).
 Proof.
-  destruct (fst (bind opts st n x)).
-  - change [] with (@nil (rule * N) ++ []). eapply steps_trans; [apply steps_bind|].
-    apply (steps_errorf _ RParDuplicate m).
-  - apply steps_bind.
+  revert i; induction l as [|a l IH]; intros [|i] H; simpl in *; try discriminate.
+  - inversion H; subst. reflexivity.
+  - apply IH. exact H.
+Qed.
+
+Lemma mem_app_one y l x : mem y (l ++ [x]) = mem y l || String.eqb y x.
+Proof. unfold mem. rewrite existsb_app. simpl. rewrite orb_false_r. reflexivity. Qed.
+
+(* r.bind(param) in a function block, followed by the duplicate report *)
+Lemma steps_bind_dup_B st seen n x m :
+  B st seen ->
+  steps st (bind_dup opts st n x m) (when (smem x seen) RParDuplicate m) /\
+  B (bind_dup opts st n x m) (if smem x seen then seen else x :: seen).
+Proof.
+  intros [b [k [He [Hk [Hm Hn]]]]]. unfold bind_dup, bind. rewrite He. unfold bindLocal. rewrite He, Hk.
+  rewrite Hm. simpl mem at 2. rewrite orb_false_r. rewrite (Hn x).
+  destruct (smem x seen) eqn:Es; simpl.
+  - split.
+    + apply (steps_errorf st RParDuplicate m).
+    + exists b, k. auto.
+  - split.
+    + apply steps_same; reflexivity.
+    + exists b. eexists. split; [exact He|]. split.
+      * simpl. apply nth_error_upd_blk_same. exact Hk.
+      * simpl. split; auto. intros y. rewrite mem_app_one, Hn. unfold smem. simpl. apply orb_comm.
 Qed.
 
 (* entering and leaving a loop / an if / a function body *)
@@ -182,8 +210,13 @@ Qed.
 Lemma ctx_push st b : ctx_of (push st b) = ctx_of st.
 Proof. reflexivity. Qed.
 
-Lemma steps_bind_dup' st n x m : steps st (bind_dup opts st n x m) [].
-Proof. apply steps_bind_dup. Qed.
+Lemma B_enter st : B (enter_fn st) [].
+Proof.
+  unfold enter_fn, B. simpl.
+  exists (length (blocks st)). eexists. split; [reflexivity|]. split.
+  - rewrite nth_error_app2 by lia. rewrite Nat.sub_diag. reflexivity.
+  - simpl. auto.
+Qed.
 
 (* ---- relations between the loop states and "what precedes" ---- *)
 Definition Rel_a (a : astate) (before : list akind) : Prop :=
@@ -200,14 +233,26 @@ Definition Rel_p (p : pstate) (before : list pkind) : Prop :=
   (existsb is_kpss before = false -> is_some (p_star p) = existsb is_kpstar before) /\
   (p_star p = None -> p_nkw p = 0).
 
-(* the bare-star report at the end of the parameter loop, from a loop state *)
-Definition bare_tail (p : pstate) (ps : params) : list (rule * N) :=
-  match p_star p with
-  | Some (n, None) =>
-      when (p_nkw p + (if is_some (p_starstar p) then 0 else kwonly_count ps) =? 0) RParBareStar n
-  | Some (_, Some _) => []
-  | None => if is_some (p_starstar p) then [] else bare_star ps
-  end.
+(* what the end of the parameter loop reports, from a loop state *)
+Definition ptail (p : pstate) (seen : list string) (ps : params) : list (rule * N) :=
+  let seenF := regular_names seen ps in
+  let named an ax := (when (smem ax seenF) RParDuplicate an, if smem ax seenF then seenF else ax :: seenF) in
+  let s1 := match p_star p with
+            | Some (_, Some (an, ax)) => named an ax
+            | Some (n, None) =>
+                (when (p_nkw p + (if is_some (p_starstar p) then 0 else kwonly_count ps) =? 0) RParBareStar n, seenF)
+            | None =>
+                if is_some (p_starstar p) then ([], seenF)
+                else match the_star false ps with
+                     | Some (_, Some (an, ax)) => named an ax
+                     | Some (n, None) => (bare_star ps, seenF)
+                     | None => ([], seenF)
+                     end
+            end in
+  fst s1 ++ match the_ss (p_starstar p) ps with Some (nn, x) => when (smem x (snd s1)) RParDuplicate nn | None => [] end.
+
+Lemma the_star_true ps : the_star true ps = None.
+Proof. induction ps; simpl; auto. Qed.
 
 Lemma mem_cons x y l : mem x (y :: l) = String.eqb x y || mem x l.
 Proof. reflexivity. Qed.
@@ -223,8 +268,8 @@ Theorem walk_exprs :
      a_n (snd (args_ opts W st ast a)) = a_n ast + count_named a) /\
   (forall ps,
      (forall st, steps st (defaults_ opts W st ps) (v_defaults (ctx_of st) ps)) /\
-     (forall st p before, Rel_p p before ->
-        steps st (params_ opts W st p ps) (v_params before ps ++ bare_tail p ps))) /\
+     (forall st p before seen, Rel_p p before -> B st seen ->
+        steps st (params_ opts W st p ps) (v_params before seen ps ++ ptail p seen ps))) /\
   (forall cl st, steps st (clauses_ opts W st cl) (v_clauses (ctx_of st) cl)) /\
   (forall l st aug, steps st (assign_ opts W st aug l) (v_lhs (ctx_of st) aug l)) /\
   (forall ls st aug, steps st (assigns_ opts W st aug ls) (v_lhss (ctx_of st) aug ls)).
@@ -253,8 +298,8 @@ Proof.
     destruct S1 as [L1 [I1 [F1 [E1 [H1 N1]]]]].
     apply (steps_fn st1 st1); auto.
     set (st2 := params_ opts W (enter_fn st1) p0 ps).
-    assert (S2 : steps (enter_fn st1) st2 (v_params [] ps ++ bare_star ps)).
-    { apply (IHp (enter_fn st1) p0 []). repeat split; auto. }
+    assert (S2 : steps (enter_fn st1) st2 (v_params [] [] ps ++ v_params_tail ps)).
+    { apply (IHp (enter_fn st1) p0 [] []); [repeat split; auto|apply B_enter]. }
     rewrite app_assoc. chain S2.
     specialize (IHb st2). rewrite (steps_ctx _ _ _ S2), ctx_enter_fn in IHb.
     replace (ctx_of st1) with (ctx_of st) in IHb by (unfold ctx_of; rewrite L1, I1, F1; reflexivity).
@@ -364,25 +409,31 @@ Proof.
   - (* PNil *)
     split.
     + intros st. apply steps_refl.
-    + intros st p before R. rewrite u_pNil. cbv zeta. simpl v_params. unfold bare_tail. simpl app.
-      assert (G : forall s V, steps st s V ->
-                  steps st (match p_starstar p with
-                            | Some (nn, x) => bind_dup opts s nn x nn
-                            | None => s
-                            end) V).
-      { intros s V HS. destruct (p_starstar p) as [[nn x]|]; auto.
-        rewrite <- (app_nil_r V). eapply steps_trans; [exact HS|apply steps_bind_dup']. }
-      apply G.
-      destruct (p_star p) as [[n [[an ax]|]]|].
-      * apply steps_bind_dup'.
+    + intros st p before seen R HB. rewrite u_pNil. cbv zeta. simpl v_params. unfold ptail.
+      simpl regular_names. simpl the_star. simpl the_ss. simpl kwonly_count. simpl app.
+      destruct (p_star p) as [[sn [[an ax]|]]|]; cbn [fst snd].
+      * destruct (steps_bind_dup_B st seen an ax an HB) as [S1 B1].
+        chain S1.
+        destruct (p_starstar p) as [[nn x]|].
+        -- destruct (steps_bind_dup_B _ _ nn x nn B1) as [S2 _]. exact S2.
+        -- apply steps_refl.
       * replace (p_nkw p + (if is_some (p_starstar p) then 0 else 0)) with (p_nkw p)
           by (destruct (is_some (p_starstar p)); lia).
-        apply steps_when. reflexivity.
-      * destruct (is_some (p_starstar p)); apply steps_refl.
+        assert (S1 : steps st (if p_nkw p =? 0 then errorf st RParBareStar sn else st)
+                           (when (p_nkw p =? 0) RParBareStar sn)) by (apply steps_when; reflexivity).
+        assert (B1 : B (if p_nkw p =? 0 then errorf st RParBareStar sn else st) seen)
+          by (destruct (p_nkw p =? 0); [apply B_errorf|]; exact HB).
+        chain S1.
+        destruct (p_starstar p) as [[nn x]|].
+        -- destruct (steps_bind_dup_B _ _ nn x nn B1) as [S2 _]. exact S2.
+        -- apply steps_refl.
+      * destruct (p_starstar p) as [[nn x]|]; cbn [is_some fst snd app].
+        -- destruct (steps_bind_dup_B st seen nn x nn HB) as [S2 _]. exact S2.
+        -- apply steps_refl.
   - (* PId *)
     intros n x r [IHd IHp]. split.
     + intros st. rewrite u_dId. apply IHd.
-    + intros st p before [R1 [R2 [R3 R4]]]. rewrite u_pId. cbv zeta. simpl v_params.
+    + intros st p before seen [R1 [R2 [R3 R4]]] HB. rewrite u_pId. cbv zeta. simpl v_params.
       set (st1 := match p_starstar p, p_star p with
                   | Some _, _ => errorf st RParReqAfterKwargs n
                   | None, Some _ => st
@@ -397,18 +448,19 @@ Proof.
         - simpl in R2. rewrite <- (R3 (eq_sym R2)).
           destruct (p_star p); simpl; [apply steps_refl|].
           apply steps_when. reflexivity. }
-      assert (S2 : steps st1 (bind_dup opts st1 n x n) []) by apply steps_bind_dup'.
+      assert (B1 : B st1 seen).
+      { unfold st1. destruct (p_starstar p); [apply B_errorf; auto|]. destruct (p_star p); auto.
+        destruct (p_seenOpt p); [apply B_errorf|]; auto. }
+      destruct (steps_bind_dup_B st1 seen n x n B1) as [S2 B2].
+      set (seen' := if smem x seen then seen else x :: seen) in *.
       set (p' := {| p_seenOpt := p_seenOpt p; p_star := p_star p; p_starstar := p_starstar p; p_nkw := nkw_next p |}).
       assert (S3 : steps (bind_dup opts st1 n x n) (params_ opts W (bind_dup opts st1 n x n) p' r)
-                         (v_params (KReg :: before) r ++ bare_tail p' r)).
-      { apply IHp. repeat split; simpl; auto.
+                         (v_params (KReg :: before) seen' r ++ ptail p' seen' r)).
+      { apply IHp; auto. repeat split; simpl; auto.
         intros Hs. unfold nkw_next. rewrite Hs. destruct (p_starstar p); auto. }
-      replace (bare_tail p (PId n x r)) with (bare_tail p' r).
-      * rewrite <- app_assoc. chain S1.
-        change (v_params (KReg :: before) r ++ bare_tail p' r)
-          with ([] ++ (v_params (KReg :: before) r ++ bare_tail p' r)).
-        chain S2. exact S3.
-      * unfold bare_tail, p', nkw_next. simpl.
+      replace (ptail p seen (PId n x r)) with (ptail p' seen' r).
+      * rewrite <- !app_assoc. chain S1. chain S2. exact S3.
+      * unfold ptail, p', nkw_next, seen'. simpl.
         destruct (p_star p) as [[sn [nm|]]|]; destruct (p_starstar p); simpl; auto.
         all: repeat match goal with
                     | |- context [?a =? 0] =>
@@ -418,24 +470,23 @@ Proof.
     intros n x d IHe r [IHd IHp]. split.
     + intros st. rewrite u_dDef. simpl v_defaults. eapply steps_trans; [apply IHe|].
       specialize (IHd (expr_ opts W st d)). rewrite (steps_ctx _ _ _ (IHe st)) in IHd. exact IHd.
-    + intros st p before [R1 [R2 [R3 R4]]]. rewrite u_pDef. cbv zeta. simpl v_params.
+    + intros st p before seen [R1 [R2 [R3 R4]]] HB. rewrite u_pDef. cbv zeta. simpl v_params.
       set (st1 := match p_starstar p with Some _ => errorf st RParOptAfterKwargs n | None => st end).
       assert (S1 : steps st st1 (when (existsb is_kpss before) RParOptAfterKwargs n)).
       { unfold st1. rewrite <- R2. destruct (p_starstar p); simpl.
         - apply (steps_errorf st RParOptAfterKwargs n).
         - apply steps_refl. }
-      assert (S2 : steps st1 (bind_dup opts st1 n x n) []) by apply steps_bind_dup'.
+      assert (B1 : B st1 seen) by (unfold st1; destruct (p_starstar p); [apply B_errorf|]; auto).
+      destruct (steps_bind_dup_B st1 seen n x n B1) as [S2 B2].
+      set (seen' := if smem x seen then seen else x :: seen) in *.
       set (p' := {| p_seenOpt := true; p_star := p_star p; p_starstar := p_starstar p; p_nkw := nkw_next p |}).
       assert (S3 : steps (bind_dup opts st1 n x n) (params_ opts W (bind_dup opts st1 n x n) p' r)
-                         (v_params (KOpt :: before) r ++ bare_tail p' r)).
-      { apply IHp. repeat split; simpl; auto.
+                         (v_params (KOpt :: before) seen' r ++ ptail p' seen' r)).
+      { apply IHp; auto. repeat split; simpl; auto.
         intros Hs. unfold nkw_next. rewrite Hs. destruct (p_starstar p); auto. }
-      replace (bare_tail p (PDef n x d r)) with (bare_tail p' r).
-      * rewrite <- app_assoc. chain S1.
-        change (v_params (KOpt :: before) r ++ bare_tail p' r)
-          with ([] ++ (v_params (KOpt :: before) r ++ bare_tail p' r)).
-        chain S2. exact S3.
-      * unfold bare_tail, p', nkw_next. simpl.
+      replace (ptail p seen (PDef n x d r)) with (ptail p' seen' r).
+      * rewrite <- !app_assoc. chain S1. chain S2. exact S3.
+      * unfold ptail, p', nkw_next, seen'. simpl.
         destruct (p_star p) as [[sn [nm|]]|]; destruct (p_starstar p); simpl; auto.
         all: repeat match goal with
                     | |- context [?a =? 0] =>
@@ -444,52 +495,53 @@ Proof.
   - (* PStar *)
     intros n name r [IHd IHp]. split.
     + intros st. rewrite u_dStar. apply IHd.
-    + intros st p before [R1 [R2 [R3 R4]]]. rewrite u_pStar. simpl v_params.
+    + intros st p before seen [R1 [R2 [R3 R4]]] HB. rewrite u_pStar. simpl v_params.
       destruct (p_starstar p) as [ss|] eqn:Ess.
       * (* rejected: after ** *)
         simpl in R2. rewrite <- R2.
-        replace (bare_tail p (PStar n name r)) with (bare_tail p r).
-        -- change (([(RParStarAfterKwargs, n)] ++ v_params (KPStar :: before) r) ++ bare_tail p r)
-             with ([(RParStarAfterKwargs, n)] ++ (v_params (KPStar :: before) r ++ bare_tail p r)).
+        replace (ptail p seen (PStar n name r)) with (ptail p seen r).
+        -- change (([(RParStarAfterKwargs, n)] ++ v_params (KPStar :: before) seen r) ++ ptail p seen r)
+             with ([(RParStarAfterKwargs, n)] ++ (v_params (KPStar :: before) seen r ++ ptail p seen r)).
            eapply steps_trans; [apply (steps_errorf st RParStarAfterKwargs n)|].
-           apply IHp. repeat split; simpl; auto.
+           apply IHp; [|apply B_errorf; auto]. repeat split; simpl; auto.
            ++ rewrite Ess; simpl; auto.
            ++ rewrite <- R2. discriminate.
-        -- unfold bare_tail. rewrite Ess. simpl. destruct (p_star p) as [[sn [nm|]]|]; reflexivity.
+        -- unfold ptail. rewrite Ess. simpl. destruct (p_star p) as [[sn [nm|]]|]; reflexivity.
       * simpl in R2. rewrite <- R2. specialize (R3 (eq_sym R2)).
         destruct (p_star p) as [s0|] eqn:Est.
         -- (* a second star *)
            simpl in R3. rewrite <- R3.
-           replace (bare_tail p (PStar n name r)) with (bare_tail p r).
-           ++ change ((when true RParMultipleStar n ++ v_params (KPStar :: before) r) ++ bare_tail p r)
-                with ([(RParMultipleStar, n)] ++ (v_params (KPStar :: before) r ++ bare_tail p r)).
+           replace (ptail p seen (PStar n name r)) with (ptail p seen r).
+           ++ change ((when true RParMultipleStar n ++ v_params (KPStar :: before) seen r) ++ ptail p seen r)
+                with ([(RParMultipleStar, n)] ++ (v_params (KPStar :: before) seen r ++ ptail p seen r)).
               eapply steps_trans; [apply (steps_errorf st RParMultipleStar n)|].
-              apply IHp. repeat split; simpl; auto.
+              apply IHp; [|apply B_errorf; auto]. repeat split; simpl; auto.
               ** rewrite Ess. simpl. auto.
               ** intros _. rewrite Est. reflexivity.
               ** rewrite Est. discriminate.
-           ++ unfold bare_tail. rewrite Est, Ess. simpl. destruct s0 as [sn [nm|]]; reflexivity.
+           ++ unfold ptail. rewrite Est, Ess. simpl. destruct s0 as [sn [nm|]]; reflexivity.
         -- (* the star is recorded *)
            simpl in R3. rewrite <- R3. simpl app.
            set (p' := {| p_seenOpt := p_seenOpt p; p_star := Some (n, name); p_starstar := None; p_nkw := p_nkw p |}).
-           replace (bare_tail p (PStar n name r)) with (bare_tail p' r).
-           ++ apply IHp. repeat split; simpl; auto; try discriminate.
-           ++ unfold bare_tail, p'. rewrite Est, Ess. simpl.
+           replace (ptail p seen (PStar n name r)) with (ptail p' seen r).
+           ++ apply IHp; auto. repeat split; simpl; auto; try discriminate.
+           ++ unfold ptail, p'. rewrite Est, Ess. simpl.
               destruct name as [[an ax]|]; simpl; auto.
               rewrite (R4 eq_refl). reflexivity.
   - (* PStarStar *)
     intros n nn x r [IHd IHp]. split.
     + intros st. rewrite u_dSS. apply IHd.
-    + intros st p before [R1 [R2 [R3 R4]]]. rewrite u_pSS. cbv zeta. simpl v_params.
+    + intros st p before seen [R1 [R2 [R3 R4]]] HB. rewrite u_pSS. cbv zeta. simpl v_params.
       set (st1 := match p_starstar p with Some _ => errorf st RParMultipleKwargs n | None => st end).
       assert (S1 : steps st st1 (when (existsb is_kpss before) RParMultipleKwargs n)).
       { unfold st1. rewrite <- R2. destruct (p_starstar p); simpl.
         - apply (steps_errorf st RParMultipleKwargs n).
         - apply steps_refl. }
+      assert (B1 : B st1 seen) by (unfold st1; destruct (p_starstar p); [apply B_errorf|]; auto).
       set (p' := {| p_seenOpt := p_seenOpt p; p_star := p_star p; p_starstar := Some (nn, x); p_nkw := p_nkw p |}).
-      replace (bare_tail p (PStarStar n nn x r)) with (bare_tail p' r).
-      * rewrite <- app_assoc. chain S1. apply IHp. repeat split; simpl; auto; try discriminate.
-      * unfold bare_tail, p'. simpl.
+      replace (ptail p seen (PStarStar n nn x r)) with (ptail p' seen r).
+      * rewrite <- app_assoc. chain S1. apply IHp; auto. repeat split; simpl; auto; try discriminate.
+      * unfold ptail, p'. simpl. rewrite the_star_true.
         destruct (p_star p) as [[sn [nm|]]|]; auto.
         -- destruct (is_some (p_starstar p)); simpl; rewrite ?Nat.add_0_r; reflexivity.
         -- destruct (is_some (p_starstar p)); reflexivity.
@@ -597,8 +649,8 @@ Proof.
     assert (C1 : ctx_of st1 = ctx_of st) by (rewrite (steps_ctx _ _ _ S1), (steps_ctx _ _ _ S0); reflexivity).
     apply (steps_fn st1 st1); auto.
     set (st2 := params_ opts W (enter_fn st1) p0 ps).
-    assert (S2 : steps (enter_fn st1) st2 (v_params [] ps ++ bare_star ps)).
-    { apply (WPp (enter_fn st1) p0 []). repeat split; auto. }
+    assert (S2 : steps (enter_fn st1) st2 (v_params [] [] ps ++ v_params_tail ps)).
+    { apply (WPp (enter_fn st1) p0 [] []); [repeat split; auto|apply B_enter]. }
     rewrite app_assoc. chain S2.
     specialize (IHb st2). rewrite (steps_ctx _ _ _ S2), ctx_enter_fn, C1 in IHb. exact IHb.
   - (* SFor *)
